@@ -163,7 +163,7 @@ package upstream
 //@ noop (*Server).panicRoute
 
 //@ contract (*Server).upstreamRoute
-//@   serves C16 C10 C01 C20
+//@   serves C16 C10 C01 C20 C18
 //@   requires[context] c != nil && c.Request != nil && c.Writer != nil
 //@   requires[fresh-step] !gUpAdded && !gUpRemoved && !gTracked && !gUntracked && !gSessClosed && !gConnClosed && !gWrote && !gUpgraded && !gDeadlineSet && !gAccepted
 //@   let ep = ginParam(c, "endpointID")
